@@ -52,7 +52,9 @@ func c10Profile(tier string) *eng.Profile {
 		Depth: 2,
 	}
 	p.Run = func(p *eng.Profile, cfg core.Cfg, ops []core.Op, leaf *eng.Leaf) {
+		eng.SetProbeAfterRecovery(true)
 		eng.CrashLeaf(p, cfg, ops, leaf, eng.CrashOpt{Prop: "C10", Torn: true, OnlyLastOp: true})
+		eng.SetProbeAfterRecovery(false)
 	}
 	if tier == "thorough" {
 		p.Depth = 3
@@ -65,6 +67,7 @@ func c11Profile(tier string) *eng.Profile {
 		Cfgs: []core.Cfg{
 			{Mode: core.KV, RW: core.F, Start: core.F, Sync: true, Seg: 100}, {Mode: core.KV, RW: core.M, Start: core.M, Sync: true, Seg: 100},
 			{Mode: core.S, RW: core.F, Start: core.F, Sync: true, Seg: 100}, {Mode: core.S, RW: core.M, Start: core.M, Sync: true, Seg: 100},
+			{Mode: core.K, RW: core.F, Start: core.F, Sync: true, Seg: 100}, {Mode: core.K, RW: core.M, Start: core.M, Sync: true, Seg: 100},
 		},
 		Ops:   crashOps,
 		Obs:   mixedObsFor,
@@ -120,7 +123,9 @@ func c16Profile(tier string) *eng.Profile {
 			*leaf = lf
 			return
 		}
+		eng.SetProbeAfterRecovery(true)
 		eng.CrashLeaf(p, cfg, hist, leaf, eng.CrashOpt{Prop: "C16", Torn: true, OnlyLastOp: true})
+		eng.SetProbeAfterRecovery(false)
 		leaf.NoExpand = true
 	}
 	return p
